@@ -97,6 +97,8 @@ func (c *cache) flushScheduler() {
 						for _, queued := range b {
 							c.flushObjs.Delete(queued)
 						}
+						// addr is marked already but may be not in b yet
+						c.flushObjs.Delete(addr)
 						break addrLoop
 					case c.flushCh <- b:
 						verifhook.Point("writecache.sched.sent", c.path, b)
